@@ -152,14 +152,23 @@ def _readahead_explanation(obs):
 
   # the early and the later aggregates are explained independently, then a
   # nested pair is looked for (lost before the first stage => lost after it)
+  # The capture is not atomic with respect to the worker threads either: two
+  # aggregates of the first stage may have seen a different number of the
+  # elements in flight, so each early aggregate gets its own subset.
   late_sols = solutions(late) if late else [set()]
-  early_sols = solutions(early) if early else [set()]
+  early_sols = {k: solutions([k]) for k in early}
   for s_late in late_sols:
-    for s_early in early_sols:
-      if s_early <= s_late or not late:
-        if s_late or s_early:
-          return {'after_first_stage': sorted(s_late | s_early),
-                  'before_first_stage': sorted(s_early)}
+    picked = {}
+    for k in early:
+      fit = [x for x in early_sols[k] if x <= s_late or not late]
+      if not fit:
+        break
+      picked[k] = min(fit, key=len)
+    else:
+      lost_early = set().union(*picked.values()) if picked else set()
+      if s_late or lost_early:
+        return {'after_first_stage': sorted(s_late | lost_early),
+                'before_first_stage': {k: sorted(x) for k, x in picked.items()}}
   return None
 
 
